@@ -486,6 +486,13 @@ func (c *SpecCtx) evalCall(n *SNode) Val {
 			return scalar(tInt, sel(e.harr(h, mapLen(mt), arrSort('L', "")), x.S))
 		}
 		panic(specErr("len of %v", x.T))
+	case "sameslice":
+		// the two slices are the same memory: same backing array and same length
+		a, b := c.eval(n.Args[0]), c.eval(n.Args[1])
+		if a.K != kSlice || b.K != kSlice {
+			panic(specErr("sameslice needs two slices"))
+		}
+		return scalar(tBool, and(eq(a.Arr, b.Arr), eq(a.Len, b.Len)))
 	case "in":
 		k := c.eval(n.Args[0])
 		m := c.eval(n.Args[1])
